@@ -247,7 +247,10 @@ pub fn run(ctx: &Ctx) {
         let strat = (proptest::collection::vec(0..(np as u32 * 64), 1..7), proptest::collection::vec((0usize..6, act), 1..200), any::<u64>())
             .prop_map(move |(idx, steps, seed)| Schedule { cells: idx.iter().map(|&i| pool[(i / 64) as usize % np].clone()).collect(), steps, seed });
         let res = crate::pt::search(hseed(&[ctx.seed, sh, 0xC14]), cases / shards as u32, strat, |s| {
-            evals.fetch_add(1, Ordering::Relaxed);
+            let k = evals.fetch_add(1, Ordering::Relaxed);
+            if k < 3 {
+                ctx.sample(hseed(&[s.seed, k]), || json!({"objects": s.cells.iter().map(|c| c.key()).collect::<Vec<_>>(), "steps": s.steps.iter().take(30).map(|(i, a)| format!("{}:{:?}", i, a)).collect::<Vec<_>>(), "n_steps": s.steps.len()}));
+            }
             let o = run_schedule(s);
             if o.nontrivial {
                 nontriv.fetch_add(1, Ordering::Relaxed);
